@@ -37,3 +37,6 @@ Definition peers (n : N) : list N := map N.of_nat (seq 0 (N.to_nat n)).
 Definition full_round (n : N) (ops : list sop) : bool :=
   forallb (fun d => forallb (fun s => N.eqb d s || existsb (fun o => is_pull o d s) ops) (peers n)) (peers n).
 Definition only_pulls (ops : list sop) : bool := forallb (fun o => match o with Pull _ _ _ => true | _ => false end) ops.
+
+(* C03, converged content: a replica does not show a row together with a deletion record that covers it *)
+Definition coherent (r : replica) : bool := stays_deleted (tombs r) r.
